@@ -58,6 +58,20 @@ class LibMap:
         ct0 = self.mapped(em, a0)
         if ct0 is None:
             return None
+        if self.is_rev_iter(em, a0):
+            # std::reverse_iterator is represented by its base() pointer
+            x = em.paren(em.E(a0))
+            if op == "++":
+                return "%s--" % x if len(args) == 2 else "--%s" % x
+            if op == "--":
+                return "%s++" % x if len(args) == 2 else "++%s" % x
+            if op == "*" and len(args) == 1:
+                return "(*(%s - 1))" % x
+            if op == "->":
+                return "(%s - 1)" % x
+            if op in ("==", "!=", "=") and len(args) == 2 and self.is_rev_iter(em, args[1]):
+                return "%s %s %s" % (x, op, em.paren(em.E(args[1])))
+            return None
         if ct0.startswith("struct vf_seq_"):
             tag = ct0[len("struct vf_seq_"):]
             if op == "[]":
@@ -162,7 +176,16 @@ class LibMap:
         return None
 
     # ------------------------------------------------------------------ member calls
+    def is_rev_iter(self, em, n):
+        try:
+            t = strip_ref(em.tm.resolve(em.ptype(n)))
+        except Unsupported:
+            return False
+        return t.kind == "named" and t.last == "reverse_iterator" and bool(t.args)
+
     def member_call(self, em, n, me, base, name, args):
+        if name == "base" and not args and self.is_rev_iter(em, base):
+            return em.E(base)
         bt = em.ptype(base)
         try:
             ct = em.tm.c(strip_ref(em.tm.resolve(bt)))
@@ -277,6 +300,10 @@ class LibMap:
             return "%s%s(%s, %s)" % (f, base, p, em.E(args[0]))
         if name in ("pop_front", "pop_back", "clear"):
             return "%s%s(%s)" % (f, name, p)
+        if name in ("rbegin", "crbegin"):  # reverse iterators are represented by their base(): rbegin().base() == end()
+            return "%send(%s)" % (f, p)
+        if name in ("rend", "crend"):
+            return "%sbegin(%s)" % (f, p)
         if name in ("begin", "cbegin"):
             return "%sbegin(%s)" % (f, p)
         if name in ("end", "cend"):
